@@ -233,11 +233,18 @@ func (p *Primary) StreamWAL(
 
 	log.Info("Replica registered with address: %s", listenerAddress)
 
+	// The replica asks for the entries from StartSequence on: the last
+	// sequence it already has is the one before it
+	var lastAck uint64
+	if req.StartSequence > 0 {
+		lastAck = req.StartSequence - 1
+	}
+
 	session := &ReplicaSession{
 		ID:              sessionID,
 		StartSequence:   req.StartSequence,
 		Stream:          stream,
-		LastAckSequence: req.StartSequence,
+		LastAckSequence: lastAck,
 		SupportedCodecs: []proto.CompressionCodec{proto.CompressionCodec_NONE},
 		Connected:       true,
 		Active:          true,
@@ -478,7 +485,7 @@ func (p *Primary) broadcastToReplicas(response *proto.WALStreamResponse) {
 
 		// Check if this session has requested entries from a higher sequence
 		if len(response.Entries) > 0 &&
-			response.Entries[0].SequenceNumber <= session.StartSequence {
+			response.Entries[0].SequenceNumber < session.StartSequence {
 			continue
 		}
 
